@@ -606,6 +606,11 @@ class C13(TrackerProp):
         return r
     def equalproj(self, a, b): return numeq(str(a), str(b))
 
+    def ops(self, rng, tier):
+        ops = TrackerProp.ops(self, rng, tier)
+        for k in range(40 if tier == "quick" else 400): ops += gentrack.alias_history(rng)
+        return ops
+
 class C14(TrackerProp):
     id = "C14"; module = "Adsb.Theorems.C14"; design_ref = "5/C14"
     deps = TrackerProp.deps + TRACKER_POS + TRACKER_ATTR
